@@ -510,6 +510,7 @@ func init() {
 		o.MinSites(8)
 	})
 
+	reg("C02", "C02.20", "T5,T2", "the version a query reports is the version of the state it scanned: read under the scan's read lock and handed on unchanged by Query", queryVersionRule)
 	reg("C02", "C02.4", "T3,T5,T2", "store indexes st/mi/vi/version: fixed writer set, every access under the lock (write lock for writes), version bumped before indexing, strict version search", func(o *Ob) {
 		e := o.E
 		T := "am/silence.Silences"
@@ -1055,4 +1056,50 @@ func init() {
 		silencerCacheCellRule(o)
 		o.MinSites(4)
 	})
+}
+
+// queryVersionRule (C02.20): the version a query reports is the version of the state it scanned.  The
+// silencer stamps its per-alert cache entry with that number and afterwards only looks at silences indexed
+// above it; a number read after the scan's lock was released can already include a silence the scan did not
+// see, which would then never be evaluated for that alert.
+func queryVersionRule(o *Ob) {
+	e := o.E
+	q := o.Fn("(*am/silence.Silences).query")
+	rl := o.One(e.Calls(q, "(*sync.RWMutex).RLock"), "scan-lock", "the scan must take the read lock once", q)
+	o.Site(rl, "query: scan and version under one read lock")
+	for _, c := range e.Calls(q, "(*sync.RWMutex).RUnlock") {
+		_, deferred := c.(*ssa.Defer)
+		o.Check(deferred, "scan-unlock", "the read lock is released inside the scan: version and result may belong to different states", c)
+	}
+	n := 0
+	for _, rs := range e.ResultStores(q, 1) {
+		if !(&Walk{Fn: q}).After(rl).Has(rs.Instr) {
+			continue
+		}
+		n++
+		v := e.X(q, rs.Val)
+		o.Check(v == "recv.version", "scan-version", "the scan reports version "+clip(v)+", not the store's version", rs.Instr)
+		if ld, ok := rs.Val.(ssa.Instruction); ok {
+			held, why := e.HeldAt(ld, q.Params[0], "mtx", 'R', 0)
+			o.Check(held, "scan-version-locked", "the reported version is read without the scan's read lock: "+why, ld)
+		}
+	}
+	o.Check(n >= 1, "scan-version", "the scan no longer reports a version", fnFirst(q))
+	Q := o.Fn("(*am/silence.Silences).Query")
+	qc := o.One(e.Calls(Q, "(*am/silence.Silences).query"), "query-scan", "Query must scan through query", Q)
+	want := e.X(Q, qc.(*ssa.Call)) + "#1"
+	r := (&Walk{Fn: Q}).After(qc)
+	m := 0
+	for _, rs := range e.ResultStores(Q, 1) {
+		if !r.Has(rs.Instr) {
+			continue
+		}
+		m++
+		o.Site(rs.Instr, "Query reports the scan's version")
+		for _, v := range e.ValStrs(Q, e.ValsAt(r, rs.Instr, rs.Val)) {
+			o.Check(v == want, "query-version", "Query reports version "+clip(v)+" with the result of a scan made at another moment: a silence stored in between is never evaluated for the alerts whose cache is stamped with it", rs.Instr)
+		}
+	}
+	o.Check(m >= 1, "query-version", "Query no longer reports a version with its result", qc)
+	o.MinSites(2)
 }
